@@ -1,11 +1,10 @@
 (* C04 - gossip validation accepts exactly the well-formed, cryptographically valid messages.
    This file only states the theorems; proofs are in Proofs/Gossip.v and Proofs/GossipTotal.v.
 
-   STATE OF THE TREE: the tree under test still runs the key-share validator of the pinned
-   tree, modelled faithfully as legacy_validate_shares (Corr/Gossip.v replays the cases on it);
-   for it the property is REFUTED below (defect D1, open in known_findings/C04.json) and holds
-   partially (C04_legacy_shares_iff_partial). [validate_shares] is the validator with the
-   proposed repair (a range test in front of the loop); C04_shares_iff is about that function.
+   The model (Model/Gossip.v, Model/GossipMisc.v) follows the code after the repair committed in
+   /repo ("fix: key shares validation rejects a keyper index outside the DKG result", 2767adb0877f).
+   The key-share validator of the pinned tree is kept as legacy_validate_shares and the
+   property is refuted for it below (defect D1).
 
    Idealisation: the group element of a share / key is a label (share of keyper i of eon key
    set e for identity x; epoch key of e for x; anything else) next to its raw bytes;
